@@ -391,6 +391,9 @@ func c13r3(c *core.Ctx) {
 		if f.Sig == nil || f.Sig.Results().Len() != 1 || relationIDsParam(f) == nil {
 			continue
 		}
+		if sl, ok := f.Sig.Results().At(0).Type().(*types.Slice); !ok || core.NamedName(sl.Elem()) != "relationID" {
+			continue
+		}
 		hasBool := false
 		for i := 0; i < f.Sig.Params().Len(); i++ {
 			if isBool(f.Sig.Params().At(i).Type()) {
